@@ -111,6 +111,36 @@ func init() {
 		"unicode/utf8.DecodeRuneInString": inDecodeRuneInString,
 		"unicode.IsPrint": inIsPrint,
 		"unicode.IsSpace": inIsSpace,
+		"(*sync.Mutex).Lock":      inNop,
+		"(*sync.Mutex).Unlock":    inNop,
+		"(*sync.Mutex).TryLock":   func(w *Worker, fr *frame, fn *ssa.Function, args []Value) Value { return true },
+		"(*sync.RWMutex).Lock":    inNop,
+		"(*sync.RWMutex).Unlock":  inNop,
+		"(*sync.RWMutex).RLock":   inNop,
+		"(*sync.RWMutex).RUnlock": inNop,
+		"(*sync.Once).Do":         inOnceDo,
+		"(*sync.Pool).Get":        inPoolGet,
+		"(*sync.Pool).Put":        inPoolPut,
+		"(*sync.WaitGroup).Add":   inNop,
+		"(*sync.WaitGroup).Done":  inNop,
+		"(*sync.WaitGroup).Wait":  inNop,
+		"sync/atomic.LoadInt32":   inAtomicLoad,
+		"sync/atomic.LoadInt64":   inAtomicLoad,
+		"sync/atomic.LoadUint32":  inAtomicLoad,
+		"sync/atomic.LoadUint64":  inAtomicLoad,
+		"sync/atomic.LoadPointer": inAtomicLoad,
+		"sync/atomic.StoreInt32":  inAtomicStore,
+		"sync/atomic.StoreInt64":  inAtomicStore,
+		"sync/atomic.StoreUint32": inAtomicStore,
+		"sync/atomic.StoreUint64": inAtomicStore,
+		"sync/atomic.AddInt32":    inAtomicAdd,
+		"sync/atomic.AddInt64":    inAtomicAdd,
+		"sync/atomic.AddUint32":   inAtomicAdd,
+		"sync/atomic.AddUint64":   inAtomicAdd,
+		"sync/atomic.CompareAndSwapInt32":  inAtomicCAS,
+		"sync/atomic.CompareAndSwapInt64":  inAtomicCAS,
+		"sync/atomic.CompareAndSwapUint32": inAtomicCAS,
+		"sync/atomic.CompareAndSwapUint64": inAtomicCAS,
 		"os.Getenv": func(w *Worker, fr *frame, fn *ssa.Function, args []Value) Value { return Str{} },
 	}
 	intrinsicOverride = map[string]bool{}
@@ -1188,4 +1218,106 @@ func inDecodeRuneInString(w *Worker, fr *frame, fn *ssa.Function, args []Value) 
 		}
 	}
 	return w.callBody(fr, fn, args)
+}
+
+// ---- sync / sync.atomic (single-threaded model: the executor runs one goroutine) ----
+
+// sync.Once.Do: the done flag is kept in the struct's first field.
+func inOnceDo(w *Worker, fr *frame, fn *ssa.Function, args []Value) Value {
+	p := args[0].(*Value)
+	if p == nil {
+		w.runtimePanic(fr, "invalid memory address or nil pointer dereference")
+	}
+	st := (*p).(Struct)
+	// sync.Once{done atomic.Uint32 (struct{_ noCopy; v uint32}), m Mutex}
+	done := &st[0]
+	if d, ok := (*done).(Struct); ok {
+		cell := &d[len(d)-1]
+		if v, _ := (*cell).(int64); v != 0 {
+			return nil
+		}
+		*cell = int64(1)
+	} else {
+		if v, _ := (*done).(int64); v != 0 {
+			return nil
+		}
+		*done = int64(1)
+	}
+	w.call(fr, 0, args[1], nil)
+	return nil
+}
+
+// sync.Pool: a real free list per pool (keyed by the pool's address), so that an
+// object put back is handed out again by the next Get - sharing between calls is
+// visible to the executor.
+func inPoolGet(w *Worker, fr *frame, fn *ssa.Function, args []Value) Value {
+	p := args[0].(*Value)
+	if l := w.pools[p]; len(l) > 0 {
+		v := l[len(l)-1]
+		w.pools[p] = l[:len(l)-1]
+		return v
+	}
+	st := (*p).(Struct)
+	newFn := st[len(st)-1] // New func() any is the last field
+	switch f := newFn.(type) {
+	case *Closure:
+		if f != nil {
+			return w.call(fr, 0, f, nil)
+		}
+	case *ssa.Function:
+		if f != nil {
+			return w.call(fr, 0, f, nil)
+		}
+	}
+	return Iface{}
+}
+
+func inPoolPut(w *Worker, fr *frame, fn *ssa.Function, args []Value) Value {
+	p := args[0].(*Value)
+	if w.pools == nil {
+		w.pools = map[*Value][]Value{}
+	}
+	w.pools[p] = append(w.pools[p], args[1])
+	return nil
+}
+
+func inAtomicLoad(w *Worker, fr *frame, fn *ssa.Function, args []Value) Value {
+	p := args[0].(*Value)
+	if p == nil {
+		w.runtimePanic(fr, "invalid memory address or nil pointer dereference")
+	}
+	return copyVal(*p)
+}
+
+func inAtomicStore(w *Worker, fr *frame, fn *ssa.Function, args []Value) Value {
+	p := args[0].(*Value)
+	if p == nil {
+		w.runtimePanic(fr, "invalid memory address or nil pointer dereference")
+	}
+	*p = args[1]
+	return nil
+}
+
+func inAtomicAdd(w *Worker, fr *frame, fn *ssa.Function, args []Value) Value {
+	p := args[0].(*Value)
+	if p == nil {
+		w.runtimePanic(fr, "invalid memory address or nil pointer dereference")
+	}
+	t := fn.Signature.Params().At(1).Type()
+	v := w.binop(fr, token.ADD, t, *p, args[1])
+	*p = v
+	return v
+}
+
+func inAtomicCAS(w *Worker, fr *frame, fn *ssa.Function, args []Value) Value {
+	p := args[0].(*Value)
+	if p == nil {
+		w.runtimePanic(fr, "invalid memory address or nil pointer dereference")
+	}
+	eq := w.equalsDyn(fr, *p, args[1])
+	if w.condition(eq) {
+		*p = args[2]
+		return true
+	}
+	return false
 }
